@@ -172,6 +172,50 @@ def run(ctx):
              '(shared rule)', floor=4)
     from .c04 import r10_can_disconnect
     r10_can_disconnect(ctx)
+    ctx.rule('C20.R5', 'nothing that can reach the transport or the '
+             'application runs between the connected-test and the mark (a '
+             'send can report the loss of that very transport synchronously, '
+             'and another thread gets the whole duration of the send to pass '
+             'the same test)', floor=2)
+    from .common import effects
+    eff = effects(ctx)
+    for fname in ('disconnect', '_handle_disconnect'):
+        f = m.method('Server', fname)
+        construct = 'Server.' + fname
+        run = run_function(f, m)
+        seen5 = set()
+        k = 0
+        for p in run.paths:
+            marks = [e for e in p.calls('pre_disconnect')
+                     if e.recv() == 'self.manager']
+            tests = [e for e in p.events if e.kind == 'call' and
+                     e.callee() in GATE_NAMES and e.recv() == 'self.manager']
+            if not marks or not tests or tests[-1].idx > marks[0].idx:
+                continue
+            k += 1
+            t0 = [t for t in tests if t.idx < marks[0].idx][-1]
+            between = [e for e in p.events[t0.idx + 1:marks[0].idx]
+                       if e.kind == 'call' and (
+                           e.callee() in ('_send_packet', '_send_eio_packet',
+                                          'send', 'disconnect') or
+                           U(e.expr.func).startswith('self.eio.') or
+                           eff.call_reaches_app(f, e.node))]
+            key = tuple(e.lineno for e in between)
+            if key in seen5:
+                continue
+            seen5.add(key)
+            ctx.check(not between, construct, 'the mark follows the '
+                      'connected-test without a transport / application '
+                      'call in between', key='send-before-mark',
+                      reason='%s runs between the connected-test (line %d) '
+                      'and pre_disconnect (line %d): for the whole duration '
+                      'of that call the client is not marked, and the '
+                      'transport layer may report its loss from inside it' % (
+                          ', '.join(U(e.expr)[:50] for e in between),
+                          t0.lineno, marks[0].lineno),
+                      where=where(f, between[0].node if between else None))
+        if not k:
+            raise AnalysisError(construct + ': no test/mark path')
     ctx.rule('C20.R4', 'whoever marks the client runs the disconnect handler: '
              'every path with a pre_disconnect mark triggers the '
              '\'disconnect\' event exactly once after it, whatever it '
